@@ -217,6 +217,9 @@ pub fn scored<const ITEMS: usize, const RESERVED: usize>(lens: u32, script: u64,
     *parking_lot::VERIF_TIMED_SEQ.get() = 0;
     // one worker thread: the parallel scan is one chunk in index order (chunk plans are a separate instance parameter)
     *rayon::VERIF_DETERMINISTIC.get() = true;
+    // dbg & 32: the parallel scan runs as two chunks, split after the first index, the RIGHT chunk first
+    // (with two pool threads the order in which chunks record their in-flight slots is arbitrary)
+    *rayon::VERIF_CHUNK_PLAN.get() = if dbg & 32 != 0 { Some((1, true)) } else { None };
     unsafe {
         *std::ptr::addr_of_mut!(NOTIFY) = 0;
         *std::ptr::addr_of_mut!(DONE) = [false; MAXI];
@@ -296,7 +299,11 @@ pub fn scored<const ITEMS: usize, const RESERVED: usize>(lens: u32, script: u64,
                 if st.running {
                     let _ = rayon::verif_run_pending();
                     let st2 = n.tick(10);
-                    check!(!st2.running, "C19 a tick after the run finished and without new items or edits reports 'not running'");
+                    if RESERVED == 0 {
+                        // (with a writer in flight - reserved, unpublished indices - the matcher keeps rescanning and
+                        // reports 'running' until the writer publishes: nothing to assert about `running` then)
+                        check!(!st2.running, "C19 a tick after the run finished and without new items or edits reports 'not running'");
+                    }
                     check!(st2.changed, "C19 the tick that collects a finished run reports 'changed'");
                 }
                 check!(n.snapshot().pattern().column_pattern(0).atoms == n.pattern.column_pattern(0).atoms, "C19 a tick that reports 'not running' leaves the snapshot pattern equal to the matcher's current pattern");
